@@ -1,4 +1,5 @@
 import Ivg.Gen.Tie.Code.Base
+import Ivg.Gen.Tie.Code.Fit
 import Ivg.Gen.Code.P_ivg
 import Ivg.Model.Color
 /-!
@@ -52,6 +53,20 @@ theorem colorOf_inj {a b : Color} : colorOf a = colorOf b ↔ a = b :=
   ⟨fun h => by simpa using congrArg colorTo? h, fun h => h ▸ rfl⟩
 @[simp] theorem colorOf_typ (c : Color) : (colorOf c).typ = typOf c.typ := rfl
 @[simp] theorem colorOf_data (c : Color) : (colorOf c).data = rgbaOf c.data := rfl
+
+/-- Go `[64]color.RGBA` of a model palette / colour register file -/
+def palOf (p : Palette) : Vector image_color_RGBA 64 := p.map rgbaOf
+/-- model palette of a Go `[64]color.RGBA` -/
+def palTo (p : Vector image_color_RGBA 64) : Palette := p.map rgbaTo
+
+@[simp] theorem palTo_palOf (p : Palette) : palTo (palOf p) = p := by
+  ext i hi <;> simp [palTo, palOf]
+@[simp] theorem palOf_palTo (p : Vector image_color_RGBA 64) : palOf (palTo p) = p := by
+  ext i hi <;> simp [palTo, palOf]
+theorem palOf_inj {a b : Palette} : palOf a = palOf b ↔ a = b :=
+  ⟨fun h => by simpa using congrArg palTo h, fun h => h ▸ rfl⟩
+theorem palOf_getElem (p : Palette) (i : Nat) (h : i < 64) : (palOf p)[i] = rgbaOf p[i] := by
+  simp [palOf]
 
 /-- Go `(byte, ok)` of the model's `Option` -/
 def enc1Of : Option UInt8 → UInt8 × Bool
@@ -218,5 +233,91 @@ theorem color_Encode3Indirect_code_tie (c : Color) :
     rgbaOf_B]
   obtain ⟨t, d⟩ := c
   cases t <;> simp [enc3Of, typOf]
+
+/-! ## unexported accessors (the model reads the fields of `c.data` directly) -/
+
+/-- color.go `Color.rgba` -/
+theorem color_rgba_code_tie (c : Color) : ivg_Color_rgba (colorOf c) = rgbaOf c.data := rfl
+/-- color.go `Color.paletteIndex` -/
+theorem color_paletteIndex_code_tie (c : Color) : ivg_Color_paletteIndex (colorOf c) = c.data.r := rfl
+/-- color.go `Color.cReg` -/
+theorem color_cReg_code_tie (c : Color) : ivg_Color_cReg (colorOf c) = c.data.r := rfl
+/-- color.go `Color.blend` -/
+theorem color_blend_code_tie (c : Color) : ivg_Color_blend (colorOf c) = (c.data.r, c.data.g, c.data.b) := rfl
+
+/-! ## outside the image of `colorOf`: a type tag `> 3` (no Go code constructs one; `typ` is unexported).
+The Go methods then behave as follows (`Encode1`, `Encode3Indirect` … answer `false`; so does `RGBA`). -/
+
+theorem color_Is1_code_tie_badTyp (c : ivg_Color) (h : 3 < c.typ) : ivg_Color_Is1 c = false := by
+  have : c.typ ≠ 0 := by intro e; rw [e] at h; exact absurd h (by decide)
+  simp [ivg_Color_Is1, this]
+theorem color_Is2_code_tie_badTyp (c : ivg_Color) (h : 3 < c.typ) : ivg_Color_Is2 c = false := by
+  have : c.typ ≠ 0 := by intro e; rw [e] at h; exact absurd h (by decide)
+  simp [ivg_Color_Is2, this]
+theorem color_Is3_code_tie_badTyp (c : ivg_Color) (h : 3 < c.typ) : ivg_Color_Is3 c = false := by
+  have : c.typ ≠ 0 := by intro e; rw [e] at h; exact absurd h (by decide)
+  simp [ivg_Color_Is3, this]
+theorem color_RGBA_code_tie_badTyp (c : ivg_Color) (h : 3 < c.typ) :
+    ivg_Color_RGBA c = (rgbaOf RGBA.black, false) := by
+  have : c.typ ≠ 0 := by intro e; rw [e] at h; exact absurd h (by decide)
+  simp [ivg_Color_RGBA, this, rgbaOf, RGBA.black]
+theorem color_Encode1_code_tie_badTyp (c : ivg_Color) (h : 3 < c.typ) : ivg_Color_Encode1 c = enc1Of none := by
+  have h0 : c.typ ≠ 0 := by intro e; rw [e] at h; exact absurd h (by decide)
+  have h1 : c.typ ≠ 1 := by intro e; rw [e] at h; exact absurd h (by decide)
+  have h2 : c.typ ≠ 2 := by intro e; rw [e] at h; exact absurd h (by decide)
+  simp [ivg_Color_Encode1, h0, h1, h2, enc1Of]
+theorem color_Encode2_code_tie_badTyp (c : ivg_Color) (h : 3 < c.typ) : ivg_Color_Encode2 c = enc2Of none := by
+  simp [ivg_Color_Encode2, color_Is2_code_tie_badTyp c h, enc2Of]
+theorem color_Encode3Direct_code_tie_badTyp (c : ivg_Color) (h : 3 < c.typ) :
+    ivg_Color_Encode3Direct c = enc3Of none := by
+  simp [ivg_Color_Encode3Direct, color_Is3_code_tie_badTyp c h, enc3Of]
+theorem color_Encode4_code_tie_badTyp (c : ivg_Color) (h : 3 < c.typ) : ivg_Color_Encode4 c = enc4Of none := by
+  have : c.typ ≠ 0 := by intro e; rw [e] at h; exact absurd h (by decide)
+  simp [ivg_Color_Encode4, this, enc4Of]
+theorem color_Encode3Indirect_code_tie_badTyp (c : ivg_Color) (h : 3 < c.typ) :
+    ivg_Color_Encode3Indirect c = enc3Of none := by
+  have : c.typ ≠ 3 := by intro e; rw [e] at h; exact absurd h (by decide)
+  simp [ivg_Color_Encode3Indirect, this, enc3Of]
+
+example : (3 : UInt8) < (⟨7, ⟨1, 2, 3, 4⟩⟩ : ivg_Color).typ := by decide
+
+/-- every Go `Color` is `colorOf` of a model Color or has a type tag `> 3` -/
+theorem colorOf_or_badTyp (c : ivg_Color) : (∃ m, c = colorOf m) ∨ 3 < c.typ := by
+  obtain ⟨t, d⟩ := c
+  by_cases h : 3 < t
+  · exact .inr h
+  · left
+    have ht : t.toNat ≤ 3 := by
+      rw [UInt8.lt_iff_toNat_lt] at h; simpa using h
+    have : t = 0 ∨ t = 1 ∨ t = 2 ∨ t = 3 := by
+      have : t.toNat = 0 ∨ t.toNat = 1 ∨ t.toNat = 2 ∨ t.toNat = 3 := by omega
+      rcases this with e | e | e | e
+      · exact .inl (UInt8.toNat_inj.mp e)
+      · exact .inr (.inl (UInt8.toNat_inj.mp e))
+      · exact .inr (.inr (.inl (UInt8.toNat_inj.mp e)))
+      · exact .inr (.inr (.inr (UInt8.toNat_inj.mp e)))
+    rcases this with rfl | rfl | rfl | rfl
+    · exact ⟨⟨.rgba, rgbaTo d⟩, rfl⟩
+    · exact ⟨⟨.paletteIndex, rgbaTo d⟩, rfl⟩
+    · exact ⟨⟨.cReg, rgbaTo d⟩, rfl⟩
+    · exact ⟨⟨.blend, rgbaTo d⟩, rfl⟩
+
+/-! ## package-level variables of package ivg -/
+
+/-- color.go `dc1Table` -/
+theorem dc1Table_code_tie (i : Nat) (h : i < 5) : Go.arrGet G_ivg_dc1Table i = dc1Table i := by
+  match i, h with
+  | 0, _ | 1, _ | 2, _ | 3, _ | 4, _ => rfl
+
+/-- ivg.go `DefaultViewBox` -/
+theorem defaultViewBox_code_tie : G_ivg_DefaultViewBox = vbOf defaultViewBox := rfl
+
+/-- ivg.go `DefaultPalette` -/
+theorem defaultPalette_code_tie : G_ivg_DefaultPalette = palOf defaultPalette := by
+  decide +kernel
+
+/-- ivg.go `DefaultMetadata` (the model's `Metadata` structure has these two as its field defaults) -/
+theorem defaultMetadata_code_tie : G_ivg_DefaultMetadata = ⟨vbOf defaultViewBox, palOf defaultPalette⟩ := by
+  decide +kernel
 
 end Ivg.Gen.Tie
